@@ -204,7 +204,7 @@ B("C16", "no-port-name-guard", F_FLATTEN, "        if \":\" in port.name:", "   
 B("C06", "name-recorded-late", F_EXPORT, "        mapping = ModuleMapping(module, pmod)\n        self.modules_by_name[pmod.name] = mapping\n", "        mapping = ModuleMapping(module, pmod)\n", "C06", accept_error=True)
 B("C12", "portref-tie-by-instance-only", F_PORTREFS, "ordered = sorted(group, key=lambda p: (p.inst.name, p.portname))", "ordered = sorted(group, key=lambda p: p.inst.name)", "C12.2")
 B("C12", "sets-named-in-hash-order", F_PARAMS, "        return sorted(json.dumps(e, default=hdl21_naming_encoder) for e in obj)", "        return [json.dumps(e, default=hdl21_naming_encoder) for e in obj]", "C12.3")
-B("C19", "series-signal-ports-only", F_GENERATORS, "    for p in io(params.unit).values():", "    for p in params.unit.ports.values():", "C19.1")
+B("C19", "series-signal-ports-only", F_GENERATORS, "    for p in bundled_io(params.unit).values():", "    for p in params.unit.ports.values():", "C19.1")
 B("C19", "bundle-deepcopy-removed", F_BUNDLE, "    def __deepcopy__(self, _memo) -> \"BundleInstance\":", "    def _deepcopy_disabled(self, _memo) -> \"BundleInstance\":", "C19.4")
 B("C18", "unban-bundle-ports", F_MODULE, "    \"get\",\n    \"bundle_ports\",\n]", "    \"get\",\n]", "C18.2")
 B("C18", "bundle-delattr-removed", F_BUNDLE, "    def __delattr__(self, __name: str) -> None:\n        \"\"\"Disable attribute deletion, as for `Module`s.\"\"\"", "    def _delattr_disabled(self, __name: str) -> None:\n        \"\"\"Disable attribute deletion, as for `Module`s.\"\"\"", "C18.3")
